@@ -43,6 +43,9 @@ def run(ctx):
     s = Sib(ctx)
     s.auto_helper_mirrors(["_overlap_with_rot_sd"])
     s.force_bias_is_coulomb_trace()
+    s.holomorphy(("_calc_force_bias",))
+    s.restricted_consumes_trial_data("force_bias")
+    s.cholesky_axis_complete(("_calc_force_bias",))
     s.rhf_restricted_vs_unrestricted("force_bias")
     s.cisd_overlap_ratio()
     s.ucisd_overlap_ratio()
